@@ -137,6 +137,8 @@ pub fn history(ctx: &mut Ctx) {
                 // every third history appends a file whose NAME is that of the archive (or of its first part) in another directory
                 if case % 3 == 2 { for special in ["t/old/a.pna", "t/old/a.part1.pna"] { if let Some(i) = pool.iter().position(|f| *f == special) { let f = pool.remove(i); write(f, &mut rng, &mut clock); newf.push(f.to_string()); ctx.count("append:input-named-like-the-archive"); break; } } }
                 for _ in 0..rng.gen_range(1..3) { if pool.is_empty() { break; } let i = rng.gen_range(0..pool.len()); let f = pool.remove(i); write(f, &mut rng, &mut clock); newf.push(f.to_string()); }
+                // every fourth append also adds a path that is archived already (changed on disk): the archive then holds it twice
+                if case % 4 == 1 { if let Some((n, _)) = before.iter().find(|(n, _)| root.join(n).is_file()) { write(n, &mut rng, &mut clock); newf.push(n.clone()); ctx.count("append:path-already-archived"); } }
                 if newf.is_empty() { continue; }
                 let targets_paths = portable_network_archive::verif::collect_items(&newf.iter().map(|f| root.join(f).to_string_lossy().to_string()).collect::<Vec<_>>(), false, false).unwrap();
                 let targets: Vec<(String, String)> = targets_paths.iter().map(|p| { let rel = Path::new(p).strip_prefix(&root).unwrap().to_string_lossy().to_string(); (rel, body(&std::fs::read(p).unwrap())) }).collect();
@@ -184,7 +186,10 @@ pub fn history(ctx: &mut Ctx) {
                 if newer { a.push("--newer-mtime".into()); }
                 for e in &excl { a.push("--exclude".into()); a.push(e.clone()); }
                 a.extend(given.iter().cloned());
-                model_req = format!("history update {} {} {} {}", nwire(&excl), nwire(&need), uwire(&before), uwire(&targets));
+                // overlapping arguments: the tree and one file inside it (new or archived) named again
+                let mut walked = targets.clone();
+                if whole && case % 3 == 0 { if let Some(t) = targets.iter().find(|(n, _)| root.join(n).is_file()).cloned() { a.push(t.0.clone()); walked.push(t); ctx.count("update:overlapping-arguments"); } }
+                model_req = format!("history update {} {} {} {}", nwire(&excl), nwire(&need), uwire(&before), uwire(&walked));
                 argv_s = a;
                 let (t2, ex2, need2) = (targets.clone(), excl.clone(), need.clone());
                 oracle = Some(Box::new(move |b, a| {
@@ -195,9 +200,9 @@ pub fn history(ctx: &mut Ctx) {
                     if untouched_b != untouched_a { return Some("an entry not named for update was lost, changed, duplicated or reordered".into()); }
                     for (n, bd) in &t2 {
                         let cnt = a.iter().filter(|(x, _)| x == n).count();
-                        let dup_before = b.iter().filter(|(x, _)| x == n).count() > 1;
-                        if cnt != 1 && !dup_before { return Some(format!("path {n} named for update is present {cnt} times")); }
                         let filtered = ex2.contains(n) || (b.iter().any(|(x, _)| x == n) && !need2.contains(n));
+                        // (an excluded or time-filtered path keeps whatever the archive held under that name, duplicates included)
+                        if cnt != 1 && !filtered { return Some(format!("path {n} named for update is present {cnt} times")); }
                         if !filtered && !a.iter().any(|(x, y)| x == n && y == bd) { return Some(format!("path {n} does not have its current contents after update")); }
                     }
                     None
